@@ -354,3 +354,45 @@ Section Slice.
     - transitivity (rmul (rmul (rmul azm iazm) (rmul azm iazm)) (rmul f2 f2)); [rewrite H; ring|ring].
   Qed.
 End Slice.
+
+(* ---- the coded slice / average fluctuations of a model with two (groups of) sub-domains ---------- *)
+Section TwoSpaces.
+  Variable K : ring_ops.
+  Local Notation R := (carrier K).
+  Local Notation r1 := (op_1 K).
+  Local Notation rmul := (op_mul K).
+  Hypothesis Rth : ring_theory (op_0 K) r1 (op_add K) rmul (op_sub K) (op_opp K) eq.
+
+  (* everything finalize and the normalised amplitudes provide:
+     good transforms t_i on n_i cells, reciprocals of the cell counts and of the volumes, of azm,
+     a_i(0) = V_i and (1/V_i)^2 sum_k a_i(k)^2 = 1 + (f_i/azm)^2 *)
+  Definition two_spaces_ok (n1 n2 : nat) (t1 t2 : nat -> nat -> R) (invn1 invn2 invN : R)
+             (a1 a2 : nat -> R) (azm iazm V1 V2 iV1 iV2 f1 f2 : R) : Prop :=
+    0 < n1 /\ 0 < n2 /\ transform_ok K n1 t1 /\ transform_ok K n2 t2 /\
+    rmul (natR K n1) invn1 = r1 /\ rmul (natR K n2) invn2 = r1 /\ rmul (natR K (n1 * n2)) invN = r1 /\
+    rmul azm iazm = r1 /\ a1 0 = V1 /\ a2 0 = V2 /\ rmul V1 iV1 = r1 /\ rmul V2 iV2 = r1 /\
+    rmul (rsq K iV1) (rsum K n1 (fun k => rsq K (a1 k))) = op_add K r1 (rsq K (rmul f1 iazm)) /\
+    rmul (rsq K iV2) (rsum K n2 (fun k => rsq K (a2 k))) = op_add K r1 (rsq K (rmul f2 iazm)).
+
+  Lemma slice_average_two n1 n2 t1 t2 invn1 invn2 invN a1 a2 azm iazm V1 V2 iV1 iV2 f1 f2 :
+    two_spaces_ok n1 n2 t1 t2 invn1 invn2 invN a1 a2 azm iazm V1 V2 iV1 iV2 f1 f2 ->
+    let t := t12 K n2 t1 t2 in
+    let coef := coef12 K n2 a1 a2 azm in
+    let invV := rmul iV1 iV2 in
+    (* variance along sub-domain 1 / 2 within slices *)
+    slice_variance K (n1 * n2) t invN invV coef (mean1 K n1 n2 invn1) = slice_sq K azm iazm [f1; f2] 0 /\
+    slice_variance K (n1 * n2) t invN invV coef (mean2 K n2 invn2) = slice_sq K azm iazm [f1; f2] 1 /\
+    (* variance of the average over the other sub-domain *)
+    average_variance K (n1 * n2) t invN invV coef (mean2 K n2 invn2) = average_sq K [f1; f2] 0 /\
+    average_variance K (n1 * n2) t invN invV coef (mean1 K n1 n2 invn1) = average_sq K [f1; f2] 1.
+  Proof.
+    intros (P1 & P2 & T1 & T2 & I1 & I2 & IN & Hz & Z1 & Z2 & W1 & W2 & N1 & N2). cbv zeta.
+    destruct (slice_sq_two K Rth azm iazm f1 f2) as [S0 S1].
+    destruct (average_sq_two K Rth azm iazm f1 f2 Hz) as [A0 A1].
+    rewrite S0, S1, A0, A1. repeat split.
+    - exact (slice1_variance K Rth n1 n2 t1 t2 P1 P2 T1 T2 invn1 I1 a1 a2 azm V1 iV1 iV2 _ _ Z1 W1 N1 N2 invN IN).
+    - exact (slice2_variance K Rth n1 n2 t1 t2 P1 P2 T1 T2 invn2 I2 a1 a2 azm V2 iV1 iV2 _ _ Z2 W2 N1 N2 invN IN).
+    - exact (average1_variance K Rth n1 n2 t1 t2 P1 P2 T1 T2 invn2 I2 a1 a2 azm V1 V2 iV1 iV2 _ Z1 Z2 W1 W2 N1 invN IN).
+    - exact (average2_variance K Rth n1 n2 t1 t2 P1 P2 T1 T2 invn1 I1 a1 a2 azm V1 V2 iV1 iV2 _ Z1 Z2 W1 W2 N2 invN IN).
+  Qed.
+End TwoSpaces.
